@@ -122,6 +122,8 @@ def play(hist, reuse=True):
     objs = {}
     obs = []
     outfile = os.path.join(w.dir, f'out-{os.getpid()}.py')
+    if os.path.exists(outfile):
+        os.remove(outfile)
     priv = os.path.join(w.dir, f'priv-{os.getpid()}.xlsx') if any(st['call'] == 'path' and '@' in st.get('arg', '') for st in hist) else None
     for st in hist:
         call, arg = st['call'], st.get('arg', '')
@@ -149,19 +151,20 @@ def play(hist, reuse=True):
         elif call == 'get':
             ev['res'] = result_id(ps.get_translation)
         elif call == 'write':
-            if os.path.exists(outfile):
-                os.remove(outfile)
+            # the output file of an earlier write of this history stays where it is (a later write goes to the same path)
+            def content():
+                if not os.path.exists(outfile):
+                    return 'none'
+                with open(outfile, encoding='utf-8') as f:
+                    return 'text:' + hashlib.sha256(f.read().encode()).hexdigest()[:20]
+            before = content()
 
             def wr():
                 ps.write_translation(outfile)
                 return ps._translation
             ev['res'] = result_id(wr)
-            if os.path.exists(outfile):
-                with open(outfile, encoding='utf-8') as f:
-                    ev['file'] = 'text:' + hashlib.sha256(f.read().encode()).hexdigest()[:20]
-                os.remove(outfile)
-            else:
-                ev['file'] = 'unchanged'
+            after = content()
+            ev['file'] = 'unchanged' if (after == before and not ev['res'].startswith('text:')) else after
         obs.append(ev)
     return obs
 
